@@ -34,6 +34,17 @@ PUBLIC_OPENERS = [
     ("dryocstream::DryocStream", "pull_to_vec"),
 ]
 
+# public combined-mode openers and the fixed overhead of their wire format (public constants
+# CRYPTO_SECRETBOX_MACBYTES, CRYPTO_BOX_MACBYTES, CRYPTO_BOX_SEALBYTES, ..._SECRETSTREAM_..._ABYTES)
+COMBINED_OPENERS = [
+    ("classic::crypto_secretbox::crypto_secretbox_open_easy", 16),
+    ("classic::crypto_secretbox::crypto_secretbox_open_easy_inplace", 16),
+    ("classic::crypto_box::crypto_box_open_easy", 16),
+    ("classic::crypto_box::crypto_box_open_easy_inplace", 16),
+    ("classic::crypto_box::crypto_box_seal_open", 48),
+    ("classic::crypto_secretstream_xchacha20poly1305::crypto_secretstream_xchacha20poly1305_pull", 17),
+]
+
 MULTI_CONFIG = True
 
 EXPLANATION = (
@@ -45,10 +56,13 @@ EXPLANATION = (
     "condition under ct_eq=true/false and callee=Ok/Err, not by matching an idiom. Coverage: every "
     "parameter of an opener lies in the backward dependency slice of the arguments of its "
     "authenticating comparison/call; the stream MAC's update calls dominate the comparison and "
-    "together depend on AD, tag block, body, |AD| and |body|.")
+    "together depend on AD, tag block, body, |AD| and |body|. ACCEPT-LEN: no Ok-capable exit of a combined-mode "
+    "opener (classic open_easy / seal_open / pull, DryocStream::pull) requires more than len >= the fixed overhead.")
 NOT_DECIDED = (
     "that Poly1305, XSalsa20, ChaCha20 and X25519 compute the right functions, hence that every "
-    "single flipped bit actually changes the recomputed tag; acceptance of the untampered input.")
+    "single flipped bit actually changes the recomputed tag; acceptance of the untampered input beyond its "
+    "structural part (ACCEPT-LEN: the length guards of the combined-mode openers let the shortest valid "
+    "ciphertext - fixed overhead, empty message - through).")
 
 
 def run(ctx, rep):
@@ -155,6 +169,29 @@ def check_config(ctx, rep, cfg):
     for f in sealers:
         seal_nonce(rep, prog, views.get(f.key, f), results, tag)
         faithful_copies(rep, prog, views.get(f.key, f), results, tag)
+    # ---- ACCEPT-LEN ----------------------------------------------------------------------------
+    # "the untampered input is always accepted", structural part: the shortest ciphertext the sealing side can
+    # produce (that of the empty message: the fixed overhead and nothing else) gets past the length guards of
+    # the combined-mode openers - no Ok-capable exit requires more than len >= overhead, capped only by a
+    # MESSAGEBYTES_MAX style limit (a guard that lets shorter input through is C04's business)
+    if cfg == "full":
+        n_acc = 0
+        for path, overhead in COMBINED_OPENERS:
+            for f in prog.by_path.get(path, []):
+                ps = [p for p in cm.params_of(f) if f.locals[p]["t"].replace("'_ ", "") == "&[u8]"] or \
+                     [p for p in cm.params_of(f) if f.locals[p]["t"].replace("'_ ", "") == "&mut [u8]"]
+                if len(ps) != 1:
+                    rep.violation("ANCHOR", path + "|ciphertext", "cannot tell the ciphertext parameter of the public opener (fail closed)", loc=f.loc())
+                    continue
+                n_acc += cm.accepts_min_len(rep, prog, f, ps[0], overhead, "ACCEPT-LEN", path.split("::")[-1], cap=1 << 31, exact=False)
+        for m in ("pull", "pull_to_vec"):
+            for f in cm.find_method(prog, "dryocstream::DryocStream", m):
+                ps = [p for p in cm.params_of(f) if p > 1 and f.locals[p]["t"].startswith("&") and not f.locals[p]["t"].startswith("&mut")]
+                if len(ps) != 1:
+                    rep.violation("ANCHOR", "DryocStream::%s|ciphertext" % m, "cannot tell the ciphertext parameter (fail closed)", loc=f.loc())
+                    continue
+                n_acc += cm.accepts_min_len(rep, prog, f, ps[0], 17, "ACCEPT-LEN", "DryocStream::" + m, cap=1 << 31, exact=False)
+        rep.floor("combined-mode openers (Ok exits with a length guard)", n_acc, 8)
     # every accepted comparison has operands of equal static width (a slice ct_eq of unequal
     # lengths is constantly false; on the accept side that only rejects, but it signals a wrong operand)
     for f in roots:
